@@ -420,9 +420,9 @@ theorem pd_all (cfg : RCfg) (hw : WrapPD cfg) :
     rename_i st _ hp hs
     simp only [renderBlock, PDOut]
     refine ⟨?_, Or.inr trivial, trivial⟩
-    have : st.pfx ++ "* * *\n".toList = (st.pfx ++ "* * *".toList) ++ ['\n'] := by simp
-    rw [this]
-    exact .single (by simp [hp]) (PfxOK.of_pfx _ _ _)
+    have hr : '\n' ∉ ruleText st.pfx := by
+      simp only [ruleText]; split <;> decide
+    exact .single (by simp [hp, hr]) (PfxOK.of_pfx _ _ _)
   -- heading (two branches of the trailing-backslash test)
   case case10 =>
     rename_i st level cs sx r0 r hb _ hp hs
